@@ -14,13 +14,13 @@ CLAIMED = {
    text="ProcessBlock/ProcessPreBlock have one call site each, proven to be behind an M-of-N quorum counted over current-view entries of the per-validator table with all transactions present; stores into per-validator tables are keyed by the payload's own validator index; PrevHash/BlockIndex come from the ledger callbacks, Timestamp/Nonce/TransactionHashes only from the admitted proposal or the proposal builder; transactions filled in proposal order; every Verify call checks a payload's own signature under its sender's key.",
    note="Does not decide that Block.Verify is a sound signature check, nor callback contracts. The re-validation of early (pre)commits is decided by D-REVALIDATE, whose two reports on the pinned tree are the known finding D6 (known_findings.json). " + A, ref="4/C02"),
  "C03": dict(technique="typed send-site guard analysis (all paths), ownership",
-   text="Every typed broadcast site is behind its 'not said yet' guard on every path from every API entry; own Commit/PreCommit constructed only with an empty own slot; commit tables cleared only by the height reset; ChangeView sends and view changes behind the commit lock; view monotone; epoch fields owned by the epoch writer; recovery builder re-sends stored payloads only; an own (pre)commit / preparation is stored only with the proposal recorded (L1-OBL).",
+   text="Every typed broadcast site is behind its 'not said yet' guard on every path from every API entry; own Commit/PreCommit constructed only with an empty own slot; commit tables cleared only by the height reset; ChangeView sends and view changes behind the commit lock; view monotone; epoch fields owned by the epoch writer; recovery builder re-sends stored payloads only; an own (pre)commit / preparation is stored only with the proposal recorded (L1-OBL); no persistent state outside Context other than call-scoped flags and the future-message cache (F-DBFT-STATE).",
    note="Not decided: identity of a commit after a peer's recovery compaction, uniqueness across process restarts, own-signature verification failure. " + A, ref="4/C03"),
  "C04": dict(technique="guard + quorum-atom + must-precede (event) analysis",
-   text="Stores of received preparations are behind their admission condition; a PrepareResponse is built only with the proposal recorded, all transactions present, after the block verifier returned true, naming the stored proposal's hash; (pre)commit only behind an M-of-N current-view preparation quorum containing the request; mismatching responses are purged; view change only behind an M-of-N ChangeView quorum.",
+   text="Stores of received preparations are behind their admission condition; a PrepareResponse is built only with the proposal recorded, all transactions present, after the block verifier returned true, naming the stored proposal's hash; (pre)commit only behind an M-of-N current-view preparation quorum containing the request; mismatching responses are purged; view change only behind an M-of-N ChangeView quorum; transactions enter the context only behind the 'requested' admission, so that the length test of 'all transactions present' means what it says.",
    note="Not decided: that Hash() identifies the proposal, behaviour of VerifyBlock itself, honesty of the counted validators. " + A, ref="4/C04"),
  "C05": dict(technique="guard analysis with admission facts, field-coverage of the reset, sibling agreement of cache writer/replayer",
-   text="ProcessBlock only while the block-sent flag is unset, flag set after every successful callback and cleared only by the height reset; every effect reachable from the event entries is behind the not-BlockSent admission; every Context field is re-initialised on every view-0 path of the epoch writer except a reasoned carry-over table; every cached payload kind has a bucket that is replayed on every initialisation.",
+   text="ProcessBlock only while the block-sent flag is unset, flag set after every successful callback and cleared only by the height reset; every effect reachable from the event entries is behind the not-BlockSent admission; every Context field is re-initialised on every view-0 path of the epoch writer except a reasoned carry-over table; every cached payload kind has a bucket that is replayed on every initialisation; state kept next to the Context (fields of DBFT itself) is the config, the mutex, the cache or a call-scoped flag that is false again at every exit of the function that sets it.",
    note="Not decided: retention of inboxes of skipped heights (memory only), influence through the application's own callbacks. " + A, ref="4/C05"),
  "C06": dict(technique="affine/modular normal forms of pure integer functions",
    text="N, F, M and GetPrimaryIndex are proven to have the normal forms len(Validators), (N-1) div 3, N-F and ((h-v) mod N corrected into [0,N)) in signed arithmetic, for all N>=1, all heights and views on a 64-bit int; purity and single definition of PrimaryIndex. The quorum-intersection and rotation statements are arithmetic consequences of these forms.",
